@@ -4,6 +4,7 @@ package corerad
 
 import (
 	"fmt"
+	"github.com/mdlayher/ndp"
 	"net"
 	"net/netip"
 	"os"
@@ -248,6 +249,16 @@ func c06Check(r *vlib.Run, c *c06Case, ev []vfake.Event, runReturned bool) {
 // c06Run executes one history against the real advertiser.
 func c06Run(t *testing.T, r *vlib.Run, c *c06Case) {
 	doc := vBaseDoc(c.Min, c.Max)
+	if c.StallFor > 0 {
+		// Deprecated options whose deadlines pass during the scenario (the epoch
+		// is 24 h before the bubble's clock starts): an RA that has to wait —
+		// for the send token, for the spacing — must carry the time remaining
+		// when it is handed to the socket, not when somebody started working on it.
+		day := int64(24 * time.Hour)
+		f := &doc.Ifaces[0]
+		f.Prefixes = append(f.Prefixes, model.PrefixSt{Prefix: model.MkCIDR("2001:db8:dead::/64"), Valid: model.D(day + int64(20*time.Second)), Preferred: model.D(day + int64(8*time.Second)), Deprecated: model.B(true)})
+		f.Routes = append(f.Routes, model.RouteSt{Prefix: model.MkCIDR("2001:db8:beef::/48"), Lifetime: model.D(day + int64(12*time.Second)), Deprecated: model.B(true)})
+	}
 	ifi, exp, err := vParseOne(doc)
 	if err != nil {
 		r.Violation(c.ID, "harness", "base document rejected: "+err.Error(), nil)
@@ -256,10 +267,19 @@ func c06Run(t *testing.T, r *vlib.Run, c *c06Case) {
 	var ev []vfake.Event
 	returned := false
 	var runErr error
+	staleAt, staleChecked := "", 0
 	pm := vBubble(t, func() {
 		h := vNewH(ifi, exp, c.Seed)
 		if c.StallFor > 0 {
 			h.connSetup = func(cn *vfake.Conn) {
+				cn.OnWrite = func(_ int, dst netip.Addr, ra *ndp.RouterAdvertisement) {
+					want := h.expectRA(true, ra.RouterLifetime == 0)
+					got := model.FromNDP(ra)
+					if d := model.DiffRA(want, got); d != "" && staleAt == "" {
+						staleAt = fmt.Sprintf("RA handed to the socket at %v for %s: %s", h.tr.Now(), dst, d)
+					}
+					staleChecked++
+				}
 				k := 0
 				cn.WriteLatencyOf = func(_ int, dst netip.Addr) time.Duration {
 					if !dst.IsMulticast() {
@@ -331,8 +351,8 @@ func c06Run(t *testing.T, r *vlib.Run, c *c06Case) {
 		ev = h.tr.Events()
 		// content: every RA must be the configured one
 		for _, e := range ev {
-			if e.Kind != "write_begin" || e.RA == nil {
-				continue
+			if e.Kind != "write_begin" || e.RA == nil || c.StallFor > 0 {
+				continue // (stall scenarios compare each RA at the moment it is transmitted)
 			}
 			want := h.expectRA(true, e.Life == 0)
 			if d := model.DiffRA(want, *e.RA); d != "" {
@@ -355,6 +375,14 @@ func c06Run(t *testing.T, r *vlib.Run, c *c06Case) {
 	r.Count("events_observed", len(ev))
 	r.Distinct("trace_signatures", vfake.Signature(vOnly(ev, "write_begin", "read_deliver", "cancel", "dial")))
 	if c.StallFor > 0 {
+		if r.Prop == "C16" {
+			r.Count("ras_compared_at_transmission", staleChecked)
+			if staleAt != "" {
+				r.Violation(c.ID, "stale-ra-transmitted", "an RA carries lifetimes of an earlier moment than its transmission (deprecated prefix / route): "+staleAt, map[string]any{"case": c})
+			}
+			r.Nontrivial(c.ID)
+			return
+		}
 		c06StallCheck(r, c, ev)
 		r.Nontrivial(c.ID)
 		return
@@ -391,10 +419,25 @@ var c06GridThorough = []time.Duration{0, vMs, vMinDelay - vMs, vMinDelay, vMinDe
 // TestVerifC06 — multicast RAs are rate limited to one per 3 s and every
 // trigger is satisfied within 3 s.
 func TestVerifC06(t *testing.T) {
-	r := vlib.Start("C06", os.Getenv("VERIF_PART"))
+	prop := "C06"
+	if os.Getenv("VERIF_PROP") == "C16" {
+		// C16's `transmit` part: the stall family only, judged on what each RA
+		// carries at the moment it is transmitted
+		prop = "C16"
+	}
+	r := vlib.Start(prop, os.Getenv("VERIF_PART"))
 	defer r.Finish()
 	if r.Part == "" {
 		r.Part = "det"
+	}
+	if prop == "C16" {
+		c06StallFamily(r, func(c *c06Case) {
+			if r.Mine(c.ID) {
+				r.Begin(c.ID)
+				c06Run(t, r, c)
+			}
+		})
+		return
 	}
 
 	run := func(c *c06Case) {
@@ -479,23 +522,7 @@ func TestVerifC06(t *testing.T) {
 	}
 
 	if r.Part == "det" {
-		// A transmission that blocks (a full socket buffer, a frozen process)
-		// while further multicast triggers arrive.  Ticks every 4 s: the write
-		// with index k begins at about 4k s when nothing else is requested.
-		offs := []time.Duration{vMs, time.Second, 2900 * vMs, 3100 * vMs, 4900 * vMs, 5100 * vMs, 7 * time.Second}
-		for _, idx := range []int{0, 1, 2} {
-			for _, sf := range []time.Duration{3500 * vMs, 5 * time.Second, 9 * time.Second} {
-				base := time.Duration(idx) * 4 * time.Second
-				for i, o1 := range offs {
-					run(&c06Case{ID: fmt.Sprintf("stall/%d/%v/%d", idx, sf, i), Max: 4 * time.Second, StallFor: sf, StallIdx: idx,
-						Evs: []c06Ev{{At: base + o1}}, Seed: time.Duration(i*31 + idx)})
-					for j, o2 := range offs[i:] {
-						run(&c06Case{ID: fmt.Sprintf("stall/%d/%v/%d+%d", idx, sf, i, j), Max: 4 * time.Second, StallFor: sf, StallIdx: idx,
-							Evs: []c06Ev{{At: base + o1}, {At: base + o1 + o2, Unicast: j%3 == 2}}, Seed: time.Duration(i*31 + j)})
-					}
-				}
-			}
-		}
+		c06StallFamily(r, run)
 	}
 
 	// Random long bursty histories, both tick regimes, with and without a
@@ -535,5 +562,27 @@ func TestVerifC06(t *testing.T) {
 			c.Reinit = c.Evs[len(c.Evs)/2].At + time.Duration(rr.Int63n(int64(time.Second)))
 		}
 		run(c)
+	}
+}
+
+// c06StallFamily enumerates the scenarios in which one multicast transmission
+// blocks while further triggers arrive (shared by C06 and by C16's transmit part).
+func c06StallFamily(r *vlib.Run, run func(c *c06Case)) {
+	// A transmission that blocks (a full socket buffer, a frozen process)
+	// while further multicast triggers arrive.  Ticks every 4 s: the write
+	// with index k begins at about 4k s when nothing else is requested.
+	offs := []time.Duration{vMs, time.Second, 2900 * vMs, 3100 * vMs, 4900 * vMs, 5100 * vMs, 7 * time.Second}
+	for _, idx := range []int{0, 1, 2} {
+		for _, sf := range []time.Duration{3500 * vMs, 5 * time.Second, 9 * time.Second} {
+			base := time.Duration(idx) * 4 * time.Second
+			for i, o1 := range offs {
+				run(&c06Case{ID: fmt.Sprintf("stall/%d/%v/%d", idx, sf, i), Max: 4 * time.Second, StallFor: sf, StallIdx: idx,
+					Evs: []c06Ev{{At: base + o1}}, Seed: time.Duration(i*31 + idx)})
+				for j, o2 := range offs[i:] {
+					run(&c06Case{ID: fmt.Sprintf("stall/%d/%v/%d+%d", idx, sf, i, j), Max: 4 * time.Second, StallFor: sf, StallIdx: idx,
+						Evs: []c06Ev{{At: base + o1}, {At: base + o1 + o2, Unicast: j%3 == 2}}, Seed: time.Duration(i*31 + j)})
+				}
+			}
+		}
 	}
 }
